@@ -64,7 +64,7 @@ def fail(prop, oracle, detail, msg):
 
 def nontrivial(res):
     p = res["probes"]
-    return (p.get("query_after_edit", 0) > 0) or (p.get("verify_after_sign", 0) > 0) or (p.get("transmissions", 0) > 0)
+    return (p.get("query_after_edit", 0) > 0) or (p.get("verify_after_sign", 0) > 0) or (p.get("transmissions", 0) > 0) or (p.get("refsigned", 0) > 0)
 
 
 def priv(k):
@@ -710,6 +710,116 @@ class World:
             if v2 != v:
                 fail("C06", "H3", f"verdict_depends_on_history_{inp.kind}", f"verify_input({idx}) is {v} on the history object and {v2} on a freshly re-parsed copy")
 
+
+    # ---------------------------------------------------------------- spends signed by the reference, verified by the library (C05 H5)
+    def op_refsign(self, st):
+        """Signatures are produced by the *reference* (reference digest for each signature's own hash type, reference ECDSA/BIP340 signing),
+        assembled with the library's finalisers, and verified by the library: the digest the library verifies with must be the specified one
+        for every hash type, also when the signatures of one multisig carry different hash types."""
+        tr = self.tr
+        if not self.inps:
+            return
+        idx = st["i"] % len(self.inps)
+        inp = self.inps[idx]
+        if inp.spk != inp.spk_at_creation:
+            return
+        tx = self.tx
+        ti = tx.tx_ins[idx]
+        k = inp.kind
+        algo = inp.algo()
+        hts = st["hts"]
+
+        def der_sig(secret, d, ht):
+            r_, s_ = secp.ecdsa_sign(secret, int.from_bytes(d, "big"))
+
+            def one(v):
+                bb = v.to_bytes(33, "big").lstrip(b"\x00")
+                if bb[0] & 0x80:
+                    bb = b"\x00" + bb
+                return b"\x02" + bytes([len(bb)]) + bb
+
+            body = one(r_) + one(s_)
+            return b"\x30" + bytes([len(body)]) + body + bytes([ht])
+
+        try:
+            if algo in ("legacy", "bip143"):
+                types = [h if h in (1, 2, 3, 0x81, 0x82, 0x83) else 1 for h in hts]
+                if k in ("p2pkh", "p2wpkh", "p2sh_p2wpkh"):
+                    ht = types[0]
+                    d = self.ref_digest(idx, algo, ht)
+                    sig = der_sig(SECRETS[inp.keys[0]], d, ht)
+                    pk = secp.sec(pub(inp.keys[0]))
+                    if k == "p2pkh":
+                        ti.finalize_p2pkh(sig, pk)
+                    elif k == "p2wpkh":
+                        ti.finalize_p2wpkh(sig, pk)
+                    else:
+                        ti.finalize_p2wpkh(sig, pk, lib_script(inp.redeem, RedeemScript))
+                    used = [ht]
+                else:
+                    chosen = self.choose_signers(inp, st)
+                    sigs, used = [], []
+                    for j, key in enumerate(chosen):
+                        ht = types[j % len(types)]
+                        d = self.ref_digest(idx, algo, ht)
+                        sigs.append(der_sig(SECRETS[key], d, ht))
+                        used.append(ht)
+                    if k == "p2sh_ms":
+                        ti.finalize_p2sh_multisig(sigs, lib_script(inp.redeem, RedeemScript))
+                    elif k == "p2wsh_ms":
+                        ti.finalize_p2wsh_multisig(sigs, lib_script(inp.wscript, WitnessScript))
+                    else:
+                        ti.finalize_p2sh_p2wsh_multisig(sigs, lib_script(inp.wscript, WitnessScript))
+            else:
+                types = [h if h in (0, 1, 2, 3, 0x81, 0x82, 0x83) else 0 for h in hts]
+                if k == "p2tr_key":
+                    ht = types[0]
+                    d = self.ref_digest(idx, algo, ht)
+                    if d is None:
+                        return
+                    sig = secp.schnorr_sign(secp.taproot_tweak_seckey(SECRETS[inp.keys[0]], b""), d) + (bytes([ht]) if ht else b"")
+                    ti.witness = Witness([sig] + ([inp.annex] if inp.annex is not None else []))
+                    used = [ht]
+                else:
+                    chosen = self.choose_signers(inp, st)
+                    by_x, used = {}, []
+                    for j, key in enumerate(chosen):
+                        ht = types[j % len(types)]
+                        d = self.ref_digest(idx, algo, ht)
+                        if d is None:
+                            return
+                        by_x[secp.xonly(pub(key))] = secp.schnorr_sign(SECRETS[key], d) + (bytes([ht]) if ht else b"")
+                        used.append(ht)
+                    xs = sorted(secp.xonly(pub(x)) for x in inp.keys)
+                    items = [by_x.get(x, b"") for x in reversed(xs)]
+                    ti.witness = Witness(items + [inp.leaf_script, inp.control] + ([inp.annex] if inp.annex is not None else []))
+        except SimDeadlock:
+            raise
+        except TypeError:
+            return  # digest undefined (None) for this hash type / state
+        inp.signed = None
+        mtx, _ = tm.parse_tx(tx.serialize(), strict=False)
+        ref_ok, why = stdverify.verify_input(mtx, idx, self.spent())
+        try:
+            lib_ok = bool(tx.verify_input(idx))
+            note = ""
+        except SimDeadlock:
+            raise
+        except Exception as e:
+            lib_ok = False
+            note = f" ({type(e).__name__}: {e})"
+        tr.oracle("H5")
+        tr.probe("refsigned")
+        tr.probe("refsigned_mixed_types" if len(set(used)) > 1 else "refsigned_single_type")
+        tr.ev("tx", "refsign", f"{idx}|{k}|{[hex(h) for h in used]}|lib={lib_ok}|ref={ref_ok}")
+        tr.state("rs", k, tuple(sorted(set(used))), lib_ok)
+        if not ref_ok:
+            fail("C05", "H5", "reference_rejects_its_own_spend", f"harness: reference-signed {k} spend not authorised per the reference itself: {why}")
+            return
+        if not lib_ok:
+            mixed = "_mixed_hash_types" if len(set(used)) > 1 else ""
+            fail("C05", "H5", f"verification_digest_{algo}{mixed}", f"a {k} spend whose signature(s) were made by the reference over the specification digests for hash types {[hex(h) for h in used]} is reported invalid by verify_input({idx}){note}: the digest used in verification differs from the specification")
+
     # ---------------------------------------------------------------- transmission with in-flight tampering (C06 catalogue as faults)
     def op_transmit(self, st):
         """The (signed) transaction is serialised, possibly tampered with in flight, parsed by a receiver that knows the spent
@@ -752,10 +862,11 @@ class World:
         tr.probe(f"transmit_lib{int(lib)}_ref{int(ref)}")
         tr.ev("net", "transmit", f"{idx}|{inp.kind}|{label}|lib={lib}{('/' + lib_note) if lib_note else ''}|ref={ref}")
         tr.state("tx", inp.kind, label, lib, ref)
+        owner = "C05" if self.prop == "C05" else "C06"  # in C05 runs the re-labelled hash type is a digest question
         if lib and not ref:
-            fail("C06", "T1", f"accepted_unauthorised_{label}_{inp.kind}", f"receiver's verify_input({idx}) is True for a {inp.kind} spend after in-flight change '{label}', but the reference finds it not authorised ({why})")
+            fail(owner, "T1", f"accepted_unauthorised_{label}_{inp.kind}", f"receiver's verify_input({idx}) is True for a {inp.kind} spend after in-flight change '{label}', but the reference finds it not authorised ({why})")
         if not mut and ref and not lib:
-            fail("C06", "T2", f"authorised_rejected_{inp.kind}", f"untampered {inp.kind} spend is authorised per the reference but the receiver's verify_input({idx}) is False {lib_note}")
+            fail(owner, "T2", f"authorised_rejected_{inp.kind}", f"untampered {inp.kind} spend is authorised per the reference but the receiver's verify_input({idx}) is False {lib_note}")
 
     def tamper(self, mi, inp, mut, idx, mtx):
         k = mut["kind"]
@@ -971,6 +1082,8 @@ def execute(plan, prop, trace):
             w.op_verify(st)
         elif op == "transmit":
             w.op_transmit(st)
+        elif op == "refsign":
+            w.op_refsign(st)
         else:
             raise ValueError(op)
     return {"inputs": [i.kind + ("+annex" if i.annex is not None else "") for i in w.inps], "outputs": len(w.model["outs"]),
@@ -1062,6 +1175,12 @@ def generate(ch, tier, prop):
                 steps.append({"op": "clone"})
             else:
                 steps.append({"op": "reparse"})
+        if ch.chance(0.04 if tier == "quick" else 0.08):
+            pos = ch.randrange(0, len(steps) + 1)
+            rs_ = {"op": "refsign", "i": ch.randrange(8), "hts": [ch.choice([0, 1, 2, 3, 0x81, 0x82, 0x83]) for _ in range(3)], "pick": ch.randrange(1000)}
+            steps.insert(pos, rs_)
+            if ch.chance(0.5):
+                steps.insert(pos + 1, {"op": "transmit", "i": rs_["i"], "mut": {"kind": "retag", "a": ch.randrange(100), "b": ch.randrange(100)}})
     else:
         budget = ch.randrange(2, 5)  # sign operations (each costs 50-400 ms)
         vbudget = ch.randrange(2, 6)
@@ -1120,8 +1239,35 @@ TAMPER_BY_KIND = {
 }
 
 
+def enumerate_c05(tier, seed):
+    r = plan_rng(seed, "enum-c05")
+    combos = [[1], [2], [3], [0x81], [0x82], [0x83], [1, 2], [3, 1], [0x83, 1], [2, 0x81]]
+    for kind in KINDS:
+        for hts in combos:
+            if kind in ("p2tr_key", "p2tr_script"):
+                hts = [0 if h == 1 and r.random() < 0.5 else h for h in hts]
+            multi = kind in ("p2sh_ms", "p2wsh_ms", "p2sh_p2wsh_ms", "p2tr_script")
+            if len(hts) > 1 and not multi:
+                continue
+            n = 3 if multi else 1
+            spec = {"kind": kind, "txid": "%064x" % r.getrandbits(256), "vout": r.randrange(3), "sequence": 0xFFFFFFFE, "amount": 100000 + r.randrange(1000), "keys": r.sample(range(8), n)}
+            if multi:
+                spec["m"] = 2
+                if kind == "p2tr_script":
+                    spec["internal"] = r.randrange(8)
+            if kind in ("p2tr_key", "p2tr_script") and r.random() < 0.4:
+                spec["annex"] = "50" + "%02x" % r.randrange(256)
+            other = {"kind": "p2wpkh", "txid": "%064x" % r.getrandbits(256), "vout": 0, "sequence": 0xFFFFFFFF, "amount": 5000, "keys": [r.randrange(8)]}
+            yield {"version": 2, "locktime": 0, "inputs": [spec, other], "outputs": [{"amount": 90000, "spk": tm.spk_p2wpkh(bytes(20)).hex()}, {"amount": 5000, "spk": tm.spk_p2pkh(bytes(20)).hex()}],
+                   "steps": [{"op": "refsign", "i": 0, "hts": hts, "pick": r.randrange(1000)}], "enum": "refsign"}
+
+
 def enumerate_plans(tier, prop, seed):
-    """C06: every signable output type x every applicable in-flight tampering (the property's catalogue as faults)."""
+    """C06: every signable output type x every applicable in-flight tampering (the property's catalogue as faults).
+    C05: every output type x hash-type combinations (also mixed within one multisig) signed by the reference, verified by the library."""
+    if prop == "C05":
+        yield from enumerate_c05(tier, seed)
+        return
     if prop != "C06":
         return
     r = plan_rng(seed, "enum-c06")
